@@ -344,7 +344,7 @@ static void run(void)
     stepno = 0;
     shim_reset();
     tcp_based = strcmp(tp, "ux") != 0 && strcmp(tp, "uxf") != 0;
-    tls_based = strcmp(tp, "tls") == 0 || strcmp(tp, "btls") == 0 || strcmp(tp, "utls") == 0;
+    tls_based = strcmp(tp, "tls") == 0 || strcmp(tp, "btls") == 0 || strcmp(tp, "utls") == 0 || strcmp(tp, "utlst") == 0;
     bool ctlflood = strcmp(scen, "ctlflood") == 0;
     char ctldir[300] = "";
     if (ctlflood) {
@@ -359,7 +359,8 @@ static void run(void)
 	 silent = strcmp(scen, "silent") == 0, release = strcmp(scen, "release") == 0,
 	 mute = strcmp(scen, "mute") == 0, garbage = strcmp(scen, "garbage") == 0, idle = strcmp(scen, "idle") == 0;
     int up = 1;
-    const char *proto = strcmp(tp, "utls") == 0 ? "utls" : tp;
+    bool utlst = strcmp(tp, "utlst") == 0;	/* a utls client of a plain tls server: no UX socket there, the TLS leg is used */
+    const char *proto = utlst ? "tls" : tp;
     int port = 0;
 
     struct xcm_attr_map *a = nb_attrs();
@@ -379,6 +380,11 @@ static void run(void)
 	if (so[3]) {
 	    xfd0[3] = xcm_fd(so[3]);
 	    snprintf(saddr, sizeof(saddr), "%s", xcm_local_addr(so[3]));
+	    if (utlst) {
+		char tmp[300];
+		snprintf(tmp, sizeof(tmp), "utls:%s", strchr(saddr, ':') + 1);
+		strcpy(saddr, tmp);
+	    }
 	} else
 	    up = 0;
 	emit("sv", 3, so[3] ? 0 : -1, so[3] ? 0 : err, 0, w);
@@ -706,10 +712,18 @@ static void run(void)
 		if (op == 0) do_finish(e); else if (op == 1) { want_send[e] = sent[e] + 1; do_send(e); } else do_receive(e);
 	    }
 	}
+    /* which transport each end really runs over (utls delegates to ux or tls): 1 ux, 2 tls, 3 other, 0 unknown */
+    int legs[3] = { 0, 0, 0 };
+    for (int e = 1; e <= 2; e++)
+	if (so[e]) {
+	    char t[32] = "";
+	    if (xcm_attr_get_str(so[e], "xcm.transport", t, sizeof(t)) >= 0)
+		legs[e] = strcmp(t, "ux") == 0 ? 1 : strcmp(t, "tls") == 0 ? 2 : 3;
+	}
     stepno++;
-    fprintf(out, "{\"x\":%ld,\"n\":%ld,\"op\":\"q\",\"e\":0,\"stk\":%d,\"turns\":%d,\"ms\":%ld,\"est\":[%d,%d],\"term\":[%d,%d],"
+    fprintf(out, "{\"x\":%ld,\"n\":%ld,\"op\":\"q\",\"e\":0,\"legs\":[%d,%d],\"stk\":%d,\"turns\":%d,\"ms\":%ld,\"est\":[%d,%d],\"term\":[%d,%d],"
 	    "\"eofs\":[%d,%d],\"sent\":[%d,%d],\"rcvd\":[%d,%d],\"bado\":[%d,%d],\"acc\":%d,\"cs\":%d,\"rel\":%d,\"rcl\":%d,\"rg\":%d}\n",
-	    xid, stepno, stuck, turns, now_ms() - t0, est[1], est[2], term[1], term[2], eofs[1], eofs[2],
+	    xid, stepno, legs[1], legs[2], stuck, turns, now_ms() - t0, est[1], est[2], term[1], term[2], eofs[1], eofs[2],
 	    sent[1], sent[2], rcvd[1], rcvd[2], bad_order[1], bad_order[2], so[2] != NULL, close_seen, released, rclosed, rgarb);
     for (int e = 1; e <= 3; e++)
 	close_so(e);
